@@ -7,6 +7,7 @@ import time
 import zlib
 
 import vlib
+import locales
 
 LEVEL = "exploration"
 HERE = os.path.dirname(os.path.abspath(__file__))
@@ -103,10 +104,43 @@ def pow2_plan(tier):
 
 
 def calltime_plan(tier):
-    """CALL TIME: (input set, mask list, number of shards)"""
+    """CALL TIME and AMBIENT PROCESS STATE (calling thread, LC_CTYPE locale): (input set, schedule list, number of shards); the lists are
+    described at the top of calltime_main.cpp, every one is enumerated completely and no schedule occurs in two of them (verified in every run)"""
     if tier == "thorough":
-        return [("wide", "le2", 16), ("small", "all", 16)]
-    return [("small", "le2", 2)]
+        return [("wide", "le2", 16), ("small", "all", 16),
+                ("small", "thr:4", 4), ("small", "thrmom:4", 8),
+                ("widebytes", "loc1", 8), ("bytes", "loc2:all", 32), ("bytes", "locthr:3", 64), ("bytes", "locmom:2", 16)]
+    return [("small", "le2", 2),
+            ("small", "thr:3", 1), ("small", "thrmom:3", 3),
+            ("bytes", "loc1", 1), ("bytes", "loc2:one", 4), ("small", "locthr:2", 8), ("bytes", "locmom:1", 2)]
+
+
+def ct_env():
+    """environment of the call-time / ambient harness: LOCPATH = the directory with the compiled 8-bit locales (locales.py)"""
+    e = dict(ASAN_ENV)
+    e["LOCPATH"] = locales.locale_dir()
+    for k in ("LC_ALL", "LC_CTYPE", "LANG", "LANGUAGE"):      # the harness starts in the "C" locale whatever the caller's environment says
+        e[k] = "C" if k != "LANGUAGE" else ""
+    return e
+
+
+def schedules_selfcheck(ctx, binary, env, tier):
+    """every schedule list of the plan, printed (not run): no process description may occur twice, and the counts go into the evidence"""
+    seen = {}
+    per_list = {}
+    for setname, lst, _n in calltime_plan(tier):
+        recs = ctx.run_harness(binary, ["--calltime", setname, lst, "--print"], tag=TAGS["ct"], env=env)
+        names = [r["v"] for r in recs if r.get("t") == "sched"]
+        per_list[lst] = len(names)
+        for v in names:
+            if v in seen and not (lst in ("le2", "all") and seen[v] in ("le2", "all")):      # thorough runs the 68 le2 masks twice on purpose: with the wide and with the small input set
+                raise vlib.HarnessError("C13 call-time plan: the schedule %s occurs in the lists %s and %s" % (v, seen[v], lst))
+            seen[v] = lst
+    ctx.stats["harness_runs"] = ctx.stats.get("harness_runs", 0) - len(per_list)      # listing is not a harness run that executed cases
+    for lst, n in per_list.items():
+        ctx.smax("calltime_schedules[%s]" % lst, n)
+    ctx.note("call-time / ambient-state plan: %s process descriptions, pairwise distinct (%s)" % (sum(per_list.values()), ", ".join("%s: %d" % kv for kv in per_list.items())))
+    return per_list
 
 
 def shards(mode, family, count, n):
@@ -276,7 +310,8 @@ def run(ctx):
     kinds = ["san", "uchar", "fast", "ct"]
     for k, b in zip(kinds, vlib.parallel([(lambda k=k: build(k)) for k in kinds])):
         bins[k] = b
-    vlib.parallel([lambda: reference_selfcheck(ctx, bins["san"]), lambda: reference_selfcheck_long(ctx, bins["fast"], ctx.tier)])
+    ctenv = ct_env()
+    vlib.parallel([lambda: reference_selfcheck(ctx, bins["san"]), lambda: reference_selfcheck_long(ctx, bins["fast"], ctx.tier), lambda: schedules_selfcheck(ctx, bins["ct"], ctenv, ctx.tier)])
     budget_end = time.time() + min(ctx.time_left() - 45, 2400 if thorough else 300)
 
     def job(kind, jobs, sampled):
@@ -308,7 +343,7 @@ def run(ctx):
             if budget_end - time.time() < 20:
                 ctx.cap("not started before the deadline: calltime %s %s shard %d/%d" % (setname, masks, i, n))
                 return
-            ctx.run_harness(bins["ct"], ["--calltime", setname, masks, "--shard", str(i), str(n)], tag=TAGS["ct"], env=ASAN_ENV, timeout=budget_end - time.time() + 300)
+            ctx.run_harness(bins["ct"], ["--calltime", setname, masks, "--shard", str(i), str(n)], tag=TAGS["ct"], env=ctenv, timeout=budget_end - time.time() + 300)
         return f
 
     todo = [job(k, j, s) for k, j, s in plan(ctx.tier)]
@@ -385,4 +420,4 @@ def run(ctx):
 
 def replay(ctx, rec):
     kind = {v: k for k, v in TAGS.items()}.get(rec.get("harness"), "san")
-    ctx.run_harness(build(kind), rec["args"], tag=TAGS[kind], env=ASAN_ENV)
+    ctx.run_harness(build(kind), rec["args"], tag=TAGS[kind], env=ct_env() if kind == "ct" else ASAN_ENV)
